@@ -809,6 +809,18 @@ def eval_wave_case(case):
             st.append(f'{idx}={read_wv(cc0, int(ws.c_locs[idx]), int(ws.c_caps[idx]), sim)}')
         lanes.append(f"{case['datasets'][sim]}@{'|'.join(st) or '~'}")
     pins, ics = tables(case, c)
+    # ---- the two tables READ OFF THE NETLIST by the model (netPinLine / netIcLine over the canonical dump, the node names and
+    #      tlib.pin_index) against the tables exported from the real circuit by structural search; the composition uses the model's
+    pidx = ';'.join(f'{pct(k)}:{pct(pn)}:{int(v[0])}' for k in sorted(set(g['kind'] for g in case['gates']))
+                    for pn, v in tlib.cells[k][1].items()) or '~'
+    pq = ';'.join(f"{pct(g['inst'])}:{pct(pn)}" for g in case['gates'] for pn in g['ins']) or '~'
+    iq = ';'.join(f"{pct(drv[1])}:{'~' if drv[0] == 'port' else pct(drv[2])}:{pct(dst[1])}:{'~' if dst[0] == 'port' else pct(dst[2])}"
+                  for sig, drv, dst in case['pairs']) or '~'
+    tabs = common.run_driver([f"sdftabs {circ.dump_names(c)} {circ.dump_net(c).replace(' ', '')} {pidx} {pq} {iq}"])[0]
+    if tabs != f'{pins} # {ics}':
+        bad.append(('pin / fork tables read off the netlist (netPinLine, netIcLine)', f'{pins} # {ics}'[:300], tabs[:300]))
+        return bad, info
+    pins, ics = tabs.split(' # ')
     with common.quiet():
         ws.c_prop()
     ans = common.run_driver([f"sdfwave {case['mode']} {L} {pct(case['sdf'])} {pins} {ics} {ops} {mf[3]} {'/'.join(lanes)}"])[0]
